@@ -1,4 +1,5 @@
 """C05 - no deadlock / starvation: structural necessary conditions only (the bound itself is a runtime quantity)."""
+import re
 from ..ruleutil import *
 from .c03 import BMRoles, MuxRoles, REFR
 from .c01 import xbar_view
@@ -174,8 +175,12 @@ def arbiters(ctx):
             exp = {"~controller.bank%d.valid" % b, "~controller.bank%d.lock" % b}
             ob.instance("crossbar arbiter %d/%d" % (b, nb), sorted(c))
             if c - exp:
-                ob.refute("xbar-ce-extra:%d/%d" % (b, nb), "bank %d's arbiter additionally waits for %s: while that holds the grant stays on a master "
-                          "that may be busy on another bank, and other ports requesting this idle bank are never granted" % (b, sorted(c - exp)), ce[0].loc)
+                # positive witness: the extra condition is about the master the grant currently rests on (its lock / its other banks)
+                if any(re.search(r"master|grant", a) for a in c - exp):
+                    ob.refute("xbar-ce-extra:%d/%d" % (b, nb), "bank %d's arbiter additionally waits for %s: while that holds the grant stays on a master "
+                              "that may be busy on another bank, and other ports requesting this idle bank are never granted" % (b, sorted(c - exp)), ce[0].loc)
+                else:
+                    ob.unknown("bank %d's arbiter additionally waits for %s: whether that condition can hold for ever is not decided" % (b, sorted(c - exp)))
             rr = [o for o in x.d.objs if o.cls == "RoundRobin"]
             for o in rr[:1]:
                 mode = o.args[1] if len(o.args) > 1 else o.kwargs.get("switch_policy")
